@@ -26,6 +26,7 @@ def main() -> int:
     ap.add_argument("--all", action="store_true")
     ap.add_argument("--selftest", action="store_true")
     ap.add_argument("--jobs", type=int, default=16)
+    ap.add_argument("--no-evidence", action="store_true", help="do not rewrite evidence/<id>.json (scratch runs against another tree)")
     a = ap.parse_args()
     if a.tier not in ("quick", "thorough"):
         a.tier = "quick"
@@ -41,6 +42,8 @@ def main() -> int:
         return rc
     if not a.prop:
         ap.error("property id required")
+    if a.no_evidence:
+        harness.WRITE_EVIDENCE = False
     rc = harness.main_check(a.prop, a.tier, a.repo, a.replay)
     if rc == 0 and a.tier == "thorough" and not a.replay:
         from sa import selftest
